@@ -193,9 +193,11 @@ fn pick_registered(g: &mut Gen, t: reg::Table) -> i64 {
 }
 
 fn gen_private(g: &mut Gen) -> i64 {
-    match g.below(4) {
+    match g.below(6) {
         0 => -65537,
         1 => i64::MIN,
+        4 => i64::MIN + 1,
+        5 => -65538,
         2 => -65538 - g.range_i64(0, 100000),
         _ => -((g.u64() >> 2) as i64) - 65537,
     }
